@@ -16,7 +16,7 @@ from gemato.exceptions import UnsupportedHash
 
 from .. import grammar as G
 from ..common import call, mk_result, run_cli, viol
-from ..seam import Seam, _h
+from ..seam import Seam, _h, orig as _o
 from ..world import World, content_bytes
 
 ID = 'C17'
@@ -71,6 +71,7 @@ def generate(rng, tier, idx):
     if rng.random() < 0.25:
         # the file changed size between fstat() and the read: the reported size hint is off, the content is what is read
         sc['fstat_skew'] = rng.choice([-1, 1, -(n // 2), 100, n, 65536, -65536])
+    sc['rehash'] = rng.random() < 0.3
     if n > 70000 and sc['chunks'] in ('tiny', 1, 3):
         sc['chunks'] = 'mixed'
     return sc
@@ -293,6 +294,26 @@ def execute(sc):
                 r = call(gemato.hash.hash_file, io.BytesIO(content), [name.lower() + '_nope'])
                 if not (r[0] == 'GE' and r[1] == 'UnsupportedHash'):
                     violations.append(viol('hash.unsupported-not-reported', 'hash_file unknown hashlib name gave %r' % (r[:2],), sig=str(r[1])))
+            if sc.get('rehash') and n > 0 and api in ('hash_path', 'metadata', 'verify') and not violations:
+                # history in one process: the same inode hashed again after an in-place rewrite of equal length with the
+                # timestamps put back (rsync --inplace -t, cp -p): the answer must be that of the bytes now in the file
+                st_ = _o['os.stat'](path)
+                content2 = bytes(b ^ 0x5a for b in content)
+                with _o['open'](path, 'r+b') as f2:
+                    f2.write(content2)
+                _o['os.utime'](path, ns=(st_.st_atime_ns, st_.st_mtime_ns))
+                if api == 'verify':
+                    e = gemato.manifest.ManifestEntryDATA('f', n, dict(expected(content, sc['hashes'])))
+                    r = call(gemato.verify.verify_path, path, e)
+                    if r[0] != 'ok' or r[1][0] is not False:
+                        violations.append(viol('hash.stale-after-rewrite', 'verify_path accepted the old digests after an in-place rewrite '
+                                               '(same size, same mtime) of %d bytes: %r' % (n, r[1:]), sig='verify'))
+                else:
+                    names = list(sc['hashlib']) + ['__size__']
+                    r = call(gemato.hash.hash_path, path, names)
+                    if r[0] != 'ok' or any(r[1].get(a) != hashlib.new(a, content2).hexdigest() for a in sc['hashlib']):
+                        violations.append(viol('hash.stale-after-rewrite', 'hash_path after an in-place rewrite (same size, same mtime) of %d bytes '
+                                               'does not describe the new content' % n, sig='hash_path'))
         if seam.stats.get('leaked_fds'):
             pass
     nontrivial = (seam.stats.get('short_reads', 0) + extra_short > 0 or n in THRESH
